@@ -10,8 +10,11 @@
 (***************************************************************************)
 EXTENDS Cartesian, Json, IOUtils
 InputsV == {0}
+\* arithmetic on the opaque value must raise; nothing else may
 J19(t) ==
-  IF t.exc # "" THEN "call-raised"
+  IF t.kind \in {"call", "square"} /\ EvalD(t.d, t.xs) = <<ERR>>
+  THEN (IF t.exc = "TypeError" THEN "ok" ELSE "arithmetic-on-the-opaque-value-did-not-raise")
+  ELSE IF t.exc # "" THEN "call-raised"
   ELSE IF t.kind = "call" THEN (IF t.res = EvalD(t.d, t.xs) THEN "ok" ELSE "result-differs-from-box-by-box-evaluation")
   ELSE IF t.kind = "swap" THEN (IF t.res = SwapF(t.l, t.xs) THEN "ok" ELSE "swap-does-not-exchange-the-blocks")
   ELSE IF t.kind = "copy" THEN (IF t.res = CopyF(t.xs) THEN "ok" ELSE "copy-does-not-duplicate")
